@@ -41,6 +41,7 @@ type EngSpec struct {
 	Points   int64
 	Collect  bool  // run the pool collectors as an extra thread
 	FinalFor int64 // length of the final drain after Unlock (default 5s)
+	Probes   []string // harness pokes evaluated at the end of the run (results in EngRun.Probes)
 }
 
 // EngRun is everything observed in one execution.
@@ -54,6 +55,7 @@ type EngRun struct {
 	Final    *hapi.Snapshot      // after Unlock + second drain
 	RT       *vrt.RT
 	EndT     int64
+	Probes   map[string]string
 }
 
 type SentReq struct {
@@ -175,6 +177,12 @@ func EngineScenario(spec *EngSpec, monitors []MonitorFactory, oracles []Oracle, 
 				vrt.AdvanceTo(drain + ff)
 			}
 			run.Final = node.Snapshot()
+			for _, p := range spec.Probes {
+				if run.Probes == nil {
+					run.Probes = map[string]string{}
+				}
+				run.Probes[p] = fmt.Sprint(node.Poke(p))
+			}
 			run.Events = append([]hapi.Event{}, node.Events()...)
 			run.EndT = vrt.Elapsed()
 		})
